@@ -81,7 +81,7 @@ impl Check for C03 {
         "witnesses_validated"
     }
     fn rule(&self) -> String {
-        "G2 systems as in C02 whose bad states are reachable within 5 steps according to R4; for each, bmc is run at the bound d (first bad depth) and d+1 against the reference solver under 8 (persona, mode, solver seed, model diversification) combinations, so that the satisfiable query is answered with different legal models and value spellings; every returned witness is replayed in the reference simulator R3: names/order of states and inputs, a value of the declared type for every state and for every input at every step, initial values equal to init expressions, every constraint true at every step, at least one bad true at the last step and the failed list exactly the bads that hold there; the same witness is replayed through patronus::sim::Interpreter and must give the same bad/constraint values. (PDR witnesses go through the same validator in C10.) mode corpus: every shipped btor2 design with a bad state (quick: files <= 6 kB, 15 steps; thorough: <= 100 kB, 40 steps) is model checked twice (random persona; jointly / individually; plain and diversified models) under a deterministic effort bound of the backend (z3 rlimit; runs over the bound are counted, not judged) and every counterexample goes through the same two replays. distinct_nontrivial = distinct (system, witness) pairs.".into()
+        "G2 systems as in C02 whose bad states are reachable within 5 steps according to R4; for each, bmc is run at the bound d (first bad depth) and d+1 against the reference solver under 8 (persona, mode, solver seed, model diversification) combinations, so that the satisfiable query is answered with different legal models and value spellings; every returned witness is replayed in the reference simulator R3: names/order of states and inputs, a value of the declared type for every state and for every input at every step, initial values equal to init expressions, every constraint true at every step, at least one bad true at the last step and the failed list exactly the bads that hold there; the same witness is replayed through patronus::sim::Interpreter and must give the same bad/constraint values. Systems whose bad states the reference search does not reach get one run at a bound below the first bad depth: any witness reported there is validated as well (it cannot be genuine). (PDR witnesses go through the same validator in C10.) mode corpus: every shipped btor2 design with a bad state (quick: files <= 6 kB, 15 steps; thorough: <= 100 kB, 40 steps) is model checked twice (random persona; jointly / individually; plain and diversified models) under a deterministic effort bound of the backend (z3 rlimit; runs over the bound are counted, not judged) and every counterexample goes through the same two replays. distinct_nontrivial = distinct (system, witness) pairs.".into()
     }
     fn assumptions(&self) -> Vec<String> {
         vec!["models come from z3 with randomised seeds plus explicit diversification by the reference solver; every sat model is a legal answer of a conforming solver".into()]
@@ -109,17 +109,35 @@ impl Check for C03 {
         }
         let mut ctx = Context::default();
         let cfg = mc_sys_cfg(&mut rng);
-        let gs = gen_system(&mut rng, &mut ctx, &cfg, "");
+        let gs = if rng.chance(1, 2) { crate::wl::sys::gen_rich_system(&mut rng, &mut ctx, &cfg, 4) } else { gen_system(&mut rng, &mut ctx, &cfg, "") };
         let sys = gs.sys;
         let label = describe(&ctx, &sys);
         let Ok(reach) = reach_for(&ctx, &sys, 6, false) else { return };
-        let Some(d) = reach.min_bad_depth else {
-            sh.count("systems_without_reachable_bad", 1);
-            return;
+        let d = match reach.min_bad_depth {
+            Some(d) if d <= 5 => d,
+            other => {
+                // no bad state within reach: a failure reported here cannot have a genuine witness (the wrong verdict
+                // itself is C02's finding; whatever witness comes with it is judged here)
+                sh.count("systems_without_reachable_bad", 1);
+                let k = match other {
+                    Some(d) => (d as u64 - 1).min(4),
+                    None => 4,
+                };
+                let persona = *rng.pick(&PERSONAS);
+                let cfgm = McCfg { persona, individually: rng.flip(), check_constraints: false, k_max: k, solver_seed: rng.next() % 100_000, diversify: 0, core_mode: "minimal" };
+                let run = run_bmc(&mut ctx, &sys, &cfgm, &sh.workdir.clone(), &format!("c03s_{}", sh.cur.n));
+                sh.count("bmc_runs_on_safe_systems", 1);
+                if let Verdict::Fail(w) = &run.verdict {
+                    if let Err((kind, text)) = validate_witness(&ctx, &sys, w) {
+                        let wt = util::catch(|| patronus::btor2::witness_to_string(w)).unwrap_or_else(|_| "<unprintable>".into());
+                        sh.violation(format!("C03|invalid-witness|{kind}"), format!("{text} (system without a reachable bad state within {k} steps; persona={persona} k={k})\n{label}--- witness\n{wt}"), json!({}));
+                    }
+                }
+                let _ = std::fs::remove_file(&run.replay);
+                let _ = std::fs::remove_file(&run.log);
+                return;
+            }
         };
-        if d > 5 {
-            return;
-        }
         sh.count("failing_systems", 1);
         sh.hist("first_bad_depth", &d.to_string());
         for run_i in 0..8u64 {
